@@ -15,9 +15,7 @@ Theorem C10_combine_is_product : forall (A : Type) (gs : list (list A)), gs <> [
   combine gs = product gs /\
   List.length (combine gs) = prod_len gs /\
   (forall c, In c (combine gs) <-> Forall2 (fun x g => In x g) c gs).
-Proof.
-  intros A gs H. rewrite (combine_is_product gs H). split; [reflexivity|]. split; [apply product_length|apply product_In].
-Qed.
+Proof. exact @combine_product_spec. Qed.
 Print Assumptions C10_combine_is_product.
 
 (* order: candidate (i, rest) sits at mixed-radix index i * |product r| + j -- the last grid varies fastest *)
